@@ -108,7 +108,11 @@ func c04Main(c *core.Ctx) {
 	var used sim.TimeSteppingModel
 	if c.R.Bool(0.3) {
 		used = NewModel(model)
-		alt := GenRun(model, c.R, N, P, B, c.R.IntRange(1, 4), wc)
+		altP := P
+		if c.R.Bool(0.5) {
+			altP = c.R.IntRange(1, N+1) // also another NUMBER of parameter sets
+		}
+		alt := GenRun(model, c.R, N, altP, B, c.R.IntRange(1, 4), wc)
 		if pa, err := PrepareOn(used, alt); err == nil {
 			pa.Exec()
 			c.Tag("object-used-with-other-parameters-before")
